@@ -152,12 +152,24 @@ def exact_key(t):
     return hashlib.sha1(repr(read_term(t)).encode()).hexdigest()[:14]
 
 
+def is_numeral(t):
+    """numerals are atoms for the workload: their internal structure (of_nat / bit0 / bit1 / one) is a
+    representation, not something the statement's term generator re-combines"""
+    try:
+        return t.is_zero() or t.is_one() or (t.is_comb('of_nat', 1) and t.arg.is_binary()) or \
+            ((t.is_comb('bit0', 1) or t.is_comb('bit1', 1)) and t.is_binary())
+    except Exception:
+        return False
+
+
 def subterms_closed(t, acc, limit=60):
-    """closed sub-terms (no loose bound variables) of t"""
+    """closed sub-terms (no loose bound variables) of t; numerals are not taken apart"""
     if len(acc) >= limit:
         return
     if not t.is_open():
         acc.append(t)
+    if is_numeral(t):
+        return
     if t.is_comb():
         subterms_closed(t.fun, acc, limit)
         subterms_closed(t.arg, acc, limit)
@@ -438,15 +450,17 @@ class Runner:
                     inst['Q'] = h
                     vs = dict(hv, **vs)
                     self.ensure_ctx(vs)
-            try:
+            def attempt():
                 with global_setting(unicode=bool(op.get('unicode')), highlight=False, line_length=None):
                     text = flatten(printer.print_str_args('apply_theorem_for', ('thm_name', inst), None))
                 name, inst2 = parser.parse_args(__import__('typing').Tuple[str, Inst], text)
+                return dict(inst2) == dict(inst)
+            try:
+                ok, exc = attempt(), None
             except Exception as e:
-                self.fail(seq, d, t, vs, op, 'inst', e)
-                return
-            if dict(inst2) != dict(inst):
-                self.fail(seq, d, t, vs, op, 'inst', None)
+                ok, exc = False, e
+            if not ok:
+                self.fail(seq, d, t, vs, op, 'inst', exc, attempt=attempt)
                 return
             ctr.inc('roundtrips_ok')
             log.add(seq, 'roundtrip_inst', d.idx, tkey(t))
@@ -638,6 +652,8 @@ def mutate(t, rng):
                 occ.append((path, x, x.get_type()))
             except Exception:
                 pass
+        if is_numeral(x):
+            return
         if x.is_comb():
             walk(x.fun, path + (0,))
             walk(x.arg, path + (1,))
@@ -648,7 +664,10 @@ def mutate(t, rng):
         return None
     for _ in range(12):
         (p1, x1, T1) = rng.pick(occ)
-        cands = [(p, x, T) for (p, x, T) in occ if T == T1 and p != p1 and p[:len(p1)] != p1 and p1[:len(p)] != p and x != x1]
+        if x1.is_const() and x1.name in ('bit0', 'bit1', 'of_nat'):
+            continue
+        cands = [(p, x, T) for (p, x, T) in occ if T == T1 and p != p1 and p[:len(p1)] != p1 and p1[:len(p)] != p and x != x1
+                 and not (x.is_const() and x.name in ('bit0', 'bit1', 'of_nat'))]
         if not cands:
             continue
         (p2, x2, T2) = rng.pick(cands)
